@@ -78,6 +78,29 @@ def autoFrag (logger : Bool) (bufLen : Nat) (m : UDPMessage) (draw : Nat) (env :
       .ok (hs ++ (sendFrags logger bufLen env 1 fs).1, (sendFrags logger bufLen env 1 fs).2)
   | r => .ok r
 
+/-! ### a session: the packets one receiveLoop / one udpConn sends, one after the other -/
+
+/-- one packet of a session with everything the environment contributes to ITS send: the value
+    `rand.Intn` returns for it and the logger/transport answers to its SendMessage calls -/
+structure Pkt where
+  m    : UDPMessage
+  draw : Nat
+  env  : Nat → Env1
+
+/-- the message as fragmented: the packet id drawn for THIS packet -/
+def Pkt.withID (p : Pkt) : UDPMessage := { p.m with packetID := pktIDOfDraw p.draw }
+
+/-- The packets of one session, in order.  Nothing is carried from one packet to the next:
+    each send starts from a fresh message (packet id 0, FragID 0, FragCount 1) and draws its own
+    id.  The server's receiveLoop ends the session at the first error (`stopOnErr`); the
+    client's udpConn.Send just returns it. -/
+def sessionSend (logger stopOnErr : Bool) (bufLen : Nat) : List Pkt → Res (List (List Handed × Option SendErr))
+  | [] => .ok []
+  | p :: ps =>
+    (autoFrag logger bufLen p.m p.draw p.env).bind fun r =>
+      if stopOnErr ∧ r.2.isSome then .ok [r]
+      else (sessionSend logger stopOnErr bufLen ps).bind fun rs => .ok (r :: rs)
+
 /-- the datagrams that actually left (SendDatagram returned nil) -/
 def delivered (hs : List Handed) : List Bytes := (hs.filter (fun h => h.resp = .ok)).map (·.bytes)
 
